@@ -69,6 +69,12 @@ pub fn dispatch(id: &str, tier: Tier, seed: u64, sub: Option<&str>) -> i32 {
         return c19::run(tier, seed);
     }
     #[cfg(feature = "plonk-std")]
+    if id == "C17" {
+        if let Some(dir) = sub.and_then(|s| s.strip_prefix("corpus:")) {
+            return c17::write_corpus(dir);
+        }
+    }
+    #[cfg(feature = "plonk-std")]
     {
         match id {
             "C01" => return c01::run(tier, seed),
